@@ -33,5 +33,6 @@ def run(ctx: Ctx) -> None:
     ctx.run(FR.rule_aph_weight, "C07-aph-same-transform")
     ctx.run(GE.rule_plane, True)
     ctx.run(C10.rule_predicate)
-    from rules import C18
+    from rules import C03, C18
+    ctx.run(C03.rule_identity)  # object identity must not depend on coordinate magnitude (no tolerance in DynamicObject.__eq__)
     ctx.run(C18.rule_registry)  # X->Y is answered from the registered matrix or the inverse of Y->X computed on demand; a lookup never stores a derived entry that a later update could leave stale
